@@ -122,6 +122,12 @@ CLAIMED = {
         "Seam L3 (dynamic_load + ssr), native rendering. The hydrate-side consumer needs a browser and is not executed.",
         "DESIGN.md §3 C17",
     ),
+    "C18": (
+        "exhaustive enumeration of the documented formatter grammar (L1), of declarations x locales x values against direct ICU4X calls in probe crates with all cache histories (L3), and bounded DPOR over thread interleavings of the real cache under loom",
+        "(L1) all 95 formatter texts + 768 whitespace variants must be understood as the documented Formatter value; (L3) each declaration x 6 locales (one rendering another locale's declaration) x values through td_string!/td!/td_format_string! must equal a direct ICU4X call for the locale being rendered, and every sequence of <= 4/5 colliding cache lookups must give the same results whatever ran before; (loom) every interleaving up to 2/3 preemptions of concurrent first uses of the cache (3 scenarios) must give the direct ICU4X results without deadlock or panic.",
+        "Seams L1, L3, and loom via cargo feature verif_loom (cache lock and lazy static taken from loom, cache code unchanged; crate built through a shadow manifest that supplies loom). ICU4X compiled data is the trusted base. `time_length: full|long` is a recorded known finding (ICU4X refuses, the library panics).",
+        "DESIGN.md §3 C18",
+    ),
 }
 
 NOT_YET = "check not built yet in this round (design in DESIGN.md §3); no claim is made"
@@ -161,7 +167,7 @@ def main():
         "setup_cmd": "./setup.sh",
         "hooks": {
             "guard": "cargo features `verif_hooks` (leptos_i18n_router) and `verif_loom` (leptos_i18n); both add no dependency and are off by default",
-            "enable": "harness crates under /verif/engine depend on /repo crates by path and switch the features on in their own Cargo.toml; nothing is enabled in /repo's own manifests",
+            "enable": "harness crates under /verif/engine depend on /repo crates by path and switch the features on in their own Cargo.toml (vrouter: verif_hooks; vloom: verif_loom through a shadow manifest generated by tools_loom_shadow.py that adds the loom crate); nothing is enabled in /repo's own manifests",
             "baseline_off_cmd": "cd /repo && cargo test --workspace --no-fail-fast --offline",
             "source_commits": hooks_commits,
             "add_only": True,
